@@ -65,7 +65,7 @@ fn mk_uri_path(b: &[u8]) -> Option<&uri::Path> {
 /// IRI paths: byte-level table twin (a char-level walk is infeasible), then the
 /// unchecked cast the library itself uses.
 fn mk_iri_path(b: &[u8]) -> Option<&iri::Path> {
-    if tables::t_iri_path_valid_k(b, 12) {
+    if tables::t_iri_path_valid(b) {
         Some(unsafe { iri::Path::new_unchecked(as_str(b)) })
     } else {
         None
